@@ -192,6 +192,12 @@ class Runner:
                 # the sub-batch holds the same stored entries (explicit zeros included) as the rows of the batch
                 want = sum(int(self.items.indptr[i + 1] - self.items.indptr[i]) for i in idx)
                 assert X.nnz == want, "row selection dropped stored entries"
+            # the storage format of the batch is the caller's choice: the same rows as CSR / CSC / COO
+            fmt = self.c.get("batch_format", "csr")
+            if fmt == "csc":
+                X = X.tocsc()
+            elif fmt == "coo":
+                X = X.tocoo()
         else:
             X = [self.items[i] for i in idx]
         if k in ("lil", "generator"):
